@@ -5,6 +5,7 @@ import (
 	"go/ast"
 	"go/token"
 	"go/types"
+	"sort"
 	"strings"
 )
 
@@ -31,10 +32,11 @@ var Scans = []*Scan{
 	{
 		Name:  "no-shared-state",
 		Props: []string{"C13"},
-		Text: "packages lz and suffix keep no shared mutable state: every package-level variable is assigned only in its declaration, its address is never taken, " +
-			"there is no go statement and no use of sync, sync/atomic or unsafe (what a method computes depends only on its receiver and arguments, so equal states give equal blocks and instances cannot influence each other)",
+		Text: "the operations of the parsers share no mutable state: inside their cone (the Parser-interface methods of every implementation, NewParser, Wrap and everything these mention in packages lz and suffix) " +
+			"there is no go statement, no use of sync, sync/atomic or unsafe, no write to a package-level variable, no address or slice of one, and no function outside the cone writes to a package-level variable the cone mentions " +
+			"(what a method computes depends only on its receiver and arguments, so equal states give equal blocks and instances cannot influence each other)",
 		Run: func(w *World) []string {
-			return append(scanNoSharedState(w, "lz"), scanNoSharedState(w, "suffix")...)
+			return scanNoSharedState(w)
 		},
 	},
 	{
@@ -235,71 +237,251 @@ func scanEncapsulation(w *World, pkg, typ string) []string {
 	return out
 }
 
-// scanNoSharedState: no package-level variable of pkg is written after its declaration or has its address taken;
-// no goroutines, no sync / atomic / unsafe.
-func scanNoSharedState(w *World, pkg string) []string {
-	pk := w.Pkgs[pkg]
-	if pk == nil {
-		return []string{"package " + pkg + " not loaded"}
-	}
-	var out []string
-	isGlobal := func(e ast.Expr) (*types.Var, bool) {
-		for {
-			switch x := ast.Unparen(e).(type) {
-			case *ast.SelectorExpr:
-				if _, isPkg := pk.TypesInfo.Uses[identOf(x.X)].(*types.PkgName); isPkg {
-					e = x.Sel
-					continue
-				}
-				e = x.X
-				continue
-			case *ast.IndexExpr:
-				e = x.X
-				continue
-			case *ast.StarExpr:
-				e = x.X
-				continue
-			case *ast.Ident:
-				if v, ok := pk.TypesInfo.Uses[x].(*types.Var); ok && v.Pkg() != nil && v.Parent() == v.Pkg().Scope() {
-					return v, true
-				}
-				return nil, false
-			default:
-				return nil, false
-			}
+// parserCone computes the functions of packages lz and suffix that the operations of a parser can execute: the
+// Parser-interface methods of every type implementing Parser (promoted methods included), every NewParser method and
+// Wrap are the roots; any mention of a function (call or value) is an edge, a mention of an interface method is an edge to every
+// declared method of that name, and a mention of a package-level variable pulls in the functions its initialiser mentions.
+type coneInfo struct {
+	decl  map[*types.Func]*ast.FuncDecl
+	info  map[*types.Func]*types.Info
+	reach map[*types.Func]bool
+	reads map[*types.Var]bool // package-level variables mentioned inside the cone
+}
+
+func parserCone(w *World) (*coneInfo, []string) {
+	c := &coneInfo{decl: map[*types.Func]*ast.FuncDecl{}, info: map[*types.Func]*types.Info{}, reach: map[*types.Func]bool{}, reads: map[*types.Var]bool{}}
+	byName := map[string][]*types.Func{}
+	varInit := map[*types.Var]ast.Expr{}
+	varInfo := map[*types.Var]*types.Info{}
+	for _, pkg := range []string{"lz", "suffix"} {
+		pk := w.Pkgs[pkg]
+		if pk == nil {
+			return nil, []string{"package " + pkg + " not loaded"}
 		}
-	}
-	for _, f := range nonTestFiles(w, pkg) {
-		for _, imp := range f.Imports {
-			switch strings.Trim(imp.Path.Value, "\"") {
-			case "sync", "sync/atomic", "unsafe":
-				out = append(out, fmt.Sprintf("%s: imports %s", w.Fset.Position(imp.Pos()), imp.Path.Value))
-			}
-		}
-		ast.Inspect(f, func(n ast.Node) bool {
-			switch n := n.(type) {
-			case *ast.GoStmt:
-				out = append(out, fmt.Sprintf("%s: go statement", w.Fset.Position(n.Pos())))
-			case *ast.AssignStmt:
-				for _, l := range n.Lhs {
-					if v, ok := isGlobal(l); ok {
-						out = append(out, fmt.Sprintf("%s: package-level variable %s is assigned", w.Fset.Position(n.Pos()), v.Name()))
+		for _, f := range nonTestFiles(w, pkg) {
+			for _, d := range f.Decls {
+				switch d := d.(type) {
+				case *ast.FuncDecl:
+					if fn, ok := pk.TypesInfo.Defs[d.Name].(*types.Func); ok {
+						c.decl[fn] = d
+						c.info[fn] = pk.TypesInfo
+						if d.Recv != nil {
+							byName[fn.Name()] = append(byName[fn.Name()], fn)
+						}
+					}
+				case *ast.GenDecl:
+					for _, sp := range d.Specs {
+						vs, ok := sp.(*ast.ValueSpec)
+						if !ok {
+							continue
+						}
+						for k, id := range vs.Names {
+							if v, ok := pk.TypesInfo.Defs[id].(*types.Var); ok && len(vs.Values) > 0 {
+								e := vs.Values[0]
+								if k < len(vs.Values) {
+									e = vs.Values[k]
+								}
+								varInit[v] = e
+								varInfo[v] = pk.TypesInfo
+							}
+						}
 					}
 				}
-			case *ast.IncDecStmt:
-				if v, ok := isGlobal(n.X); ok {
-					out = append(out, fmt.Sprintf("%s: package-level variable %s is modified", w.Fset.Position(n.Pos()), v.Name()))
+			}
+		}
+	}
+	lz := w.Pkgs["lz"]
+	pobj, _ := lz.Types.Scope().Lookup("Parser").(*types.TypeName)
+	if pobj == nil {
+		return nil, []string{"interface Parser not found"}
+	}
+	iface, _ := pobj.Type().Underlying().(*types.Interface)
+	if iface == nil {
+		return nil, []string{"Parser is not an interface"}
+	}
+	var queue []*types.Func
+	push := func(fn *types.Func) {
+		fn = fn.Origin()
+		if !c.reach[fn] {
+			c.reach[fn] = true
+			queue = append(queue, fn)
+		}
+	}
+	roots := 0
+	for _, name := range lz.Types.Scope().Names() {
+		tn, ok := lz.Types.Scope().Lookup(name).(*types.TypeName)
+		if !ok || types.IsInterface(tn.Type()) {
+			continue
+		}
+		ptr := types.NewPointer(tn.Type())
+		if types.Implements(ptr, iface) || types.Implements(tn.Type(), iface) {
+			// the operations of a parser are the methods of the Parser interface (the embedded configuration
+			// promotes its JSON and Verify methods into the method set; they are not parser operations)
+			ms := types.NewMethodSet(ptr)
+			for k := 0; k < iface.NumMethods(); k++ {
+				m := iface.Method(k)
+				if sel := ms.Lookup(m.Pkg(), m.Name()); sel != nil {
+					if fn, ok := sel.Obj().(*types.Func); ok {
+						push(fn)
+						roots++
+					}
 				}
-			case *ast.UnaryExpr:
-				if n.Op == token.AND {
-					if v, ok := isGlobal(n.X); ok {
-						out = append(out, fmt.Sprintf("%s: the address of package-level variable %s is taken", w.Fset.Position(n.Pos()), v.Name()))
+			}
+		}
+	}
+	for fn := range c.decl {
+		if fn.Name() == "NewParser" || (fn.Name() == "Wrap" && c.decl[fn].Recv == nil) {
+			push(fn)
+		}
+	}
+	if roots == 0 {
+		return nil, []string{"no type implementing Parser found"}
+	}
+	seenVar := map[*types.Var]bool{}
+	var mention func(info *types.Info, n ast.Node)
+	mention = func(info *types.Info, n ast.Node) {
+		ast.Inspect(n, func(n ast.Node) bool {
+			id, ok := n.(*ast.Ident)
+			if !ok {
+				return true
+			}
+			switch obj := info.Uses[id].(type) {
+			case *types.Func:
+				if sig, ok := obj.Type().(*types.Signature); ok && sig.Recv() != nil && types.IsInterface(sig.Recv().Type()) {
+					for _, m := range byName[obj.Name()] {
+						push(m)
+					}
+				} else {
+					push(obj)
+				}
+			case *types.Var:
+				if obj.Pkg() != nil && obj.Parent() == obj.Pkg().Scope() {
+					c.reads[obj] = true
+					if e := varInit[obj]; e != nil && !seenVar[obj] {
+						seenVar[obj] = true
+						mention(varInfo[obj], e)
 					}
 				}
 			}
 			return true
 		})
 	}
+	for len(queue) > 0 {
+		fn := queue[0]
+		queue = queue[1:]
+		if d := c.decl[fn]; d != nil && d.Body != nil {
+			mention(c.info[fn], d.Body)
+		}
+	}
+	return c, nil
+}
+
+// scanNoSharedState: inside the cone of the parser operations there is no go statement, no use of sync, sync/atomic
+// or unsafe, no write to a package-level variable and no address of one; outside the cone no function writes to (or
+// takes the address of) a package-level variable that the cone mentions.
+func scanNoSharedState(w *World) []string {
+	c, errs := parserCone(w)
+	if errs != nil {
+		return errs
+	}
+	var out []string
+	for fn, d := range c.decl {
+		if d.Body == nil {
+			continue
+		}
+		info := c.info[fn]
+		inCone := c.reach[fn]
+		global := func(e ast.Expr) (*types.Var, bool) {
+			for {
+				switch x := ast.Unparen(e).(type) {
+				case *ast.SelectorExpr:
+					if _, isPkg := info.Uses[identOf(x.X)].(*types.PkgName); isPkg {
+						e = x.Sel
+						continue
+					}
+					e = x.X
+					continue
+				case *ast.IndexExpr:
+					e = x.X
+					continue
+				case *ast.SliceExpr:
+					e = x.X
+					continue
+				case *ast.StarExpr:
+					e = x.X
+					continue
+				case *ast.Ident:
+					if v, ok := info.Uses[x].(*types.Var); ok && v.Pkg() != nil && v.Parent() == v.Pkg().Scope() {
+						return v, true
+					}
+					return nil, false
+				default:
+					return nil, false
+				}
+			}
+		}
+		relevant := func(v *types.Var) bool { return inCone || c.reads[v] }
+		where := "outside the parser operations, but the variable is used by them"
+		if inCone {
+			where = "inside the parser operations"
+		}
+		ast.Inspect(d.Body, func(n ast.Node) bool {
+			switch n := n.(type) {
+			case *ast.GoStmt:
+				if inCone {
+					out = append(out, fmt.Sprintf("%s: go statement in %s", w.Fset.Position(n.Pos()), fn.Name()))
+				}
+			case *ast.Ident:
+				if !inCone {
+					return true
+				}
+				if obj := info.Uses[n]; obj != nil && obj.Pkg() != nil {
+					switch obj.Pkg().Path() {
+					case "sync", "sync/atomic", "unsafe":
+						out = append(out, fmt.Sprintf("%s: %s uses %s.%s", w.Fset.Position(n.Pos()), fn.Name(), obj.Pkg().Path(), obj.Name()))
+					}
+				}
+			case *ast.AssignStmt:
+				if n.Tok == token.DEFINE {
+					return true
+				}
+				for _, l := range n.Lhs {
+					if v, ok := global(l); ok && relevant(v) {
+						out = append(out, fmt.Sprintf("%s: package-level variable %s is assigned (%s)", w.Fset.Position(n.Pos()), v.Name(), where))
+					}
+				}
+			case *ast.IncDecStmt:
+				if v, ok := global(n.X); ok && relevant(v) {
+					out = append(out, fmt.Sprintf("%s: package-level variable %s is modified (%s)", w.Fset.Position(n.Pos()), v.Name(), where))
+				}
+			case *ast.UnaryExpr:
+				if n.Op == token.AND {
+					if v, ok := global(n.X); ok && relevant(v) {
+						out = append(out, fmt.Sprintf("%s: the address of package-level variable %s is taken (%s)", w.Fset.Position(n.Pos()), v.Name(), where))
+					}
+				}
+			case *ast.SliceExpr:
+				if v, ok := global(n.X); ok && relevant(v) {
+					if _, isArr := v.Type().Underlying().(*types.Array); isArr {
+						out = append(out, fmt.Sprintf("%s: package-level array %s is sliced, which creates a writable alias (%s)", w.Fset.Position(n.Pos()), v.Name(), where))
+					}
+				}
+			case *ast.RangeStmt:
+				if n.Tok == token.ASSIGN {
+					for _, l := range []ast.Expr{n.Key, n.Value} {
+						if l == nil {
+							continue
+						}
+						if v, ok := global(l); ok && relevant(v) {
+							out = append(out, fmt.Sprintf("%s: package-level variable %s is assigned by range (%s)", w.Fset.Position(n.Pos()), v.Name(), where))
+						}
+					}
+				}
+			}
+			return true
+		})
+	}
+	sort.Strings(out)
 	return out
 }
 
